@@ -384,7 +384,9 @@ func (c *Ctx) c08Fail(fail *ssa.Function) {
 	// RedirectPath derives from vals.Encode and Mount
 	for _, call := range CallsTo(fail, fnRedirect) {
 		os := c.fieldOrigins(Arg(call, 2))
-		enc := HasOrigin(os, func(o Origin) bool { return o.Kind == "field" && strings.HasSuffix(o.Name, "RedirectOptions.RedirectPath") })
+		enc := HasOrigin(os, func(o Origin) bool {
+			return o.Kind == "field" && strings.HasSuffix(o.Name, "RedirectOptions.RedirectPath")
+		})
 		_ = enc
 		okPath := hasField(os, ".Mount") || hasField(os, "Mount")
 		r.Check(okPath, "C08.redir", fnm, "RedirectPath", posf(c, call), "login page under the mount path", "redirect does not target <Mount>/login")
